@@ -59,7 +59,12 @@ def gen_history(rng, opts=None):
             return E([(1, rng.randrange(ns))], rng.choice([0, 0, 1, -1]))
         return E([(rng.choice([1, -1, 2]), rng.randrange(ns))], rng.choice(VALS))
 
-    def sz_exp(r, a):
+    mix = opts.get("mixsz", False)
+
+    def sz_exp(r, a, load=False):
+        # mixsz: stores use other element sizes too (a load must use the width of the scalars)
+        if mix and not load and rng.random() < 0.3:
+            return E([], rng.choice([1, 2, 4, 8]))
         return E([], c.esz[a])
 
     def idx_exp(r, a, allow_sym=True):
@@ -72,6 +77,8 @@ def gen_history(rng, opts=None):
             return [], E([], c.one[a])
         x = rng.random()
         if x < 0.55 or not allow_sym:
+            if mix and rng.random() < 0.3:
+                return [], E([], s * rng.randrange(c.ncells) + rng.choice([1, 2, 3, s // 2]))
             return [], E([], s * rng.randrange(c.ncells))
         v = rng.randrange(ns)
         if x < 0.85:
@@ -111,7 +118,7 @@ def gen_history(rng, opts=None):
         elif pick == "aload":
             pre, ix = idx_exp(r, a)
             ops += pre
-            ops.append("aload %d %d %d %s %s" % (r, rng.randrange(ns), a, sz_exp(r, a), ix))
+            ops.append("aload %d %d %d %s %s" % (r, rng.randrange(ns), a, sz_exp(r, a, True), ix))
         elif pick == "astore":
             pre, ix = idx_exp(r, a)
             ops += pre
